@@ -340,8 +340,8 @@ def jsonable(o):
 
 
 def write_replay(ctx, payload):
-    d = VERIF / "replay"
-    d.mkdir(exist_ok=True)
+    d = Path(os.environ.get("VERIF_REPLAY_DIR", str(VERIF / "replay")))
+    d.mkdir(parents=True, exist_ok=True)
     k = 0
     while True:
         p = d / f"{ctx.prop}-{ctx.seed}-{k}.json"
@@ -412,8 +412,10 @@ def finish(ctx, lean, module, level="proof"):
         assumptions=getattr(module, "ASSUMPTIONS", []),
         wall_s=wall, violations=violations,
     )
-    (VERIF / "evidence").mkdir(exist_ok=True)
-    (VERIF / "evidence" / f"{ctx.prop}.json").write_text(json.dumps(ev, indent=1))
+    # evidence of the registered checks goes to /verif/evidence; development runs against other trees (seeded changes) redirect it
+    edir = Path(os.environ.get("VERIF_EVIDENCE_DIR", str(VERIF / "evidence")))
+    edir.mkdir(parents=True, exist_ok=True)
+    (edir / f"{ctx.prop}.json").write_text(json.dumps(ev, indent=1))
     for l in lines:
         print(l)
     comp = {}
